@@ -524,6 +524,19 @@ fn boundary_server_cases(st: &mut S16, codec: Codec, regime: Regime) {
                 server_case(st, codec, &format!("[{regime:?}] request id {id} deadline {dn}"), &f, Some(true));
             }
         }
+        // long request bodies with multi-byte characters across round byte offsets
+        for limit in [255usize, 256, 1023, 1024, 1025, 4095, 4096, 65_535, 65_536] {
+            for ch in ['é', '€', '😀'] {
+                for lead in 0..ch.len_utf8() {
+                    let mut text = "y".repeat(lead);
+                    while text.len() < limit + 8 {
+                        text.push(ch);
+                    }
+                    let f = request_msg(codec, 3, Duration::from_secs(10), &text);
+                    server_case(st, codec, &format!("[{regime:?}] request whose body is {} bytes of {}-byte characters after {lead} ASCII bytes", text.len(), ch.len_utf8()), &f, Some(true));
+                }
+            }
+        }
         // cancels for ids never used, floods of duplicates
         let cancel = frame(&encode_body(codec, &ClientMessageMirror::Cancel { trace_context: tctx(1), request_id: u64::MAX }));
         server_case(st, codec, &format!("[{regime:?}] cancel for an id never used"), &cancel, Some(true));
@@ -589,6 +602,31 @@ fn client_cases(st: &mut S16, codec: Codec, regime: Regime, now: Instant, mutate
                     failure(st, "C16-client-call-lost".into(), format!("{codec:?} [{regime:?}] response for id {id} with error kind number {kind}: call {:?} dispatch {:?}", r.call, r.dispatch));
                 } else if id == 77 && r.call.as_deref() != Some("Ok(1)") {
                     failure(st, "C16-client-call-lost".into(), format!("{codec:?} [{regime:?}] unsolicited error response (kind {kind}) disturbed the call: {:?}", r.call));
+                }
+            }
+        }
+        // long texts with multi-byte characters across every "round" byte offset: an error detail
+        // (or a body) is peer-supplied text of any length and alignment
+        for limit in [0usize, 1, 2, 63, 64, 127, 128, 255, 256, 511, 512, 1023, 1024, 1025, 2047, 2048, 4095, 4096, 8191, 8192, 65_535, 65_536] {
+            for (cn, ch) in [("2-byte", 'é'), ("3-byte", '€'), ("4-byte", '😀')] {
+                for lead in 0..ch.len_utf8() {
+                    let mut text = "x".repeat(lead);
+                    while text.len() < limit + 8 {
+                        text.push(ch);
+                    }
+                    for as_error in [true, false] {
+                        let message = if as_error { Err(tarpc::ServerError::new(io::ErrorKind::Other, text.clone())) } else { Ok(text.clone()) };
+                        let input = frame(&encode_body(codec, &Response::<String> { request_id: 0, message }));
+                        st.evals += 1;
+                        st.distinct.insert(h(&(codec, regime, "long-text", limit, cn, lead, as_error)));
+                        let r = client_bytes(codec, None, &input);
+                        let label = format!("{codec:?} [{regime:?}] reply with a {} of {} bytes ({lead} ASCII bytes, then {cn} characters)", if as_error { "server error detail" } else { "body" }, text.len());
+                        if let Some(p) = &r.panic {
+                            failure(st, format!("C16-client-panic/{}", site(p)), format!("{label}: {p}"));
+                        } else if r.stuck || r.call.is_none() {
+                            failure(st, "C16-client-call-lost".into(), format!("{label}: call {:?} dispatch {:?}", r.call, r.dispatch));
+                        }
+                    }
                 }
             }
         }
